@@ -93,7 +93,9 @@ class Ledger:
                 self.fares[vid] = self.fares.get(vid, 0.0) + d['price']
                 wait = int(d['pickup_time']) - int(d['request_time'])
                 wts = d['wait_time_seconds'].total_seconds()
-                if not (0 <= wait <= cancel + delta) or not (0 <= wts <= cancel + delta):
+                # the upper bound presupposes that CancelRequests runs in every step (histories made of whole steps)
+                hi = cancel + delta if getattr(w, 'full_steps_only', False) else 86400
+                if not (0 <= wait <= hi) or not (0 <= wts <= hi):
                     out.append(('C19', 'pickup_wait_out_of_range', {'request': rid, 'pickup_time': int(d['pickup_time']), 'request_time': int(d['request_time']), 'wait_time_seconds': wts}))
                 v = sim.vehicles.get(vid)
                 rq_geoid = d['geoid']
@@ -144,6 +146,8 @@ class Ledger:
             if rid not in self.admitted:
                 out.append(('C03', 'request_without_add_event', {'request': rid}))
         for rid, vid in on_board.items():
+            if rid in self.dropped and self.dropped[rid] == vid and len(sim.vehicles[vid].vehicle_state.route) == 0:
+                continue     # dropped off in this very update; the activity ends on the next one
             if self.picked.get(rid) != vid or rid in self.dropped:
                 out.append(('C03', 'on_board_without_pickup', {'request': rid, 'vehicle': vid}))
         # ---- C05 / C19 books ----
@@ -259,8 +263,11 @@ def c06_motion(w, k, op, before, sim, reports):
             continue
         broute = bst.route
         if dodo > 0:
-            vmax = max((sim.road_network.link_from_link_id(l.link_id).speed_kmph for l in broute), default=0.0)
-            slack = vmax * (len(broute) + 1) / 3600.0 + 0.002      # whole-second rounding per link + one res-15 cell
+            links = list(broute) + list(getattr(st, 'route', ()))      # a default transition may have installed a new route
+            if not links:
+                continue
+            vmax = max(sim.road_network.link_from_link_id(l.link_id).speed_kmph for l in links)
+            slack = vmax * (len(links) + 1) / 3600.0 + 0.002      # whole-second rounding per link + one res-15 cell
             if dodo > vmax * delta / 3600.0 + slack:
                 out.append(('C06', 'faster_than_road_allows', {'vehicle': v.id, 'distance_km': dodo, 'delta_s': delta, 'max_speed_kmph': vmax}))
         if isinstance(st, TRAVEL) and type(st) == type(bst):
@@ -284,13 +291,16 @@ def c06_motion(w, k, op, before, sim, reports):
         if isinstance(bst, TRAVEL) and len(bst.route) == 0 and type(st) == type(bst) and op[0] == 'update':
             # arrived in an earlier step and still in the travelling activity after this update
             tgt_ok = True
+            cause = 'unknown'
             if isinstance(bst, DispatchStation):
                 s = sim.stations.get(bst.station_id)
                 m = w.env.mechatronics[v.mechatronics_id]
                 cs = s.state.get(bst.charger_id) if s else None
                 tgt_ok = cs is not None and m.valid_charger(cs.charger)
+                if tgt_ok and m.is_full(v):
+                    cause = 'battery_full_on_arrival'
             if tgt_ok:
-                out.append(('C06', 'stuck_after_arrival', {'vehicle': v.id, 'activity': type(bst).__name__}))
+                out.append(('C06', 'stuck_after_arrival', {'vehicle': v.id, 'activity': type(bst).__name__, 'cause': cause}))
     return out
 
 def c07_location(w, k, op, before, sim, reports):
